@@ -149,7 +149,13 @@ fn main() {
     }
     // XV_ONLY_FUZZ: sensitivity experiments on the fuzz targets alone
     if std::env::var_os("XV_ONLY_FUZZ").is_none() {
-        (def.run)(&ctx);
+        // a panic of the harness itself (not of the code under test, which the oracles catch) - e.g. no
+        // space left for a work directory - is an inconclusive run, never a verdict
+        if let Err(p) = std::panic::catch_unwind(std::panic::AssertUnwindSafe(|| (def.run)(&ctx))) {
+            let msg = p.downcast_ref::<String>().cloned().or_else(|| p.downcast_ref::<&str>().map(|s| s.to_string())).unwrap_or_default();
+            let detail = engine::LAST_PANIC_GLOBAL.lock().ok().and_then(|g| g.clone()).unwrap_or_default();
+            ctx.inconclusive(format!("harness panic: {msg} {detail}"));
+        }
     }
     // thorough tier: coverage-guided campaign on the property's libFuzzer target, same oracles
     for plan in fuzz_plan(&id) {
